@@ -93,6 +93,10 @@ class Sess:
             if str(msg.get(11, "")).startswith("stop"):
                 from asyncfix.connection import ConnectionState as CS
                 await ep.disconnect(CS.DISCONNECTED_WCONN_TODAY, logout_message="closing")
+            # an application that books the message and then waits for something else (a database, a downstream system)
+            if str(msg.get(11, "")).startswith("slow"):
+                import asyncio
+                await asyncio.sleep(5)
         ep.vf_hooks["on_message"] = on_message
         return ep
 
@@ -132,6 +136,7 @@ class Sess:
         return n < limit
 
     explicit_n = 0
+    slow_stops = 0
 
     async def send(self, side, prefix=""):
         from asyncfix import FIXMessage
@@ -173,6 +178,8 @@ class Sess:
             await ep.disconnect(CS.DISCONNECTED_WCONN_TODAY, logout_message="restart")
             await settle()
         E.stop_tasks(ep)
+        if mode != "kill":
+            await settle()          # an orderly stop lets the cancelled tasks unwind (their finally blocks run) before the process ends
         # the process is gone: its socket closes (what it wrote is still delivered, then EOF); frames towards it are lost
         if link is not None and link.up:
             w = link.writer.get(side)
@@ -243,8 +250,10 @@ def gen_history(rnd):
     steps = []
     for _ in range(n):
         r = rnd.random()
-        if r < 0.04:
+        if r < 0.03:
             steps.append(("send_stop", rnd.choice("IA")))     # the receiver's application closes the session inside on_message
+        elif r < 0.06:
+            steps.append(("send_slow_stop", rnd.choice("IA")))    # the receiver is stopped (tasks cancelled) while its handler is still awaiting
         elif r < 0.34:
             steps.append(("send", rnd.choice("IA")))
         elif r < 0.7:
@@ -278,6 +287,18 @@ async def do_step(s, st):
             await s.pump()
             s.trace.append(f"send_stop{st[1]}:{ident}:{r}")
             if not s.ctl.dead:
+                await recover_link(s)
+    elif k == "send_slow_stop":
+        if quiescent(s):
+            other = "A" if st[1] == "I" else "I"
+            ident, r = await s.send(st[1], prefix="slow")
+            if r == "ok" and not s.ctl.dead:
+                await w.deliver(other)                  # the handler has the message and is suspended
+                handed = ident in s.all_rx(other)
+                await s.stop_endpoint(other, "graceful")     # the process is stopped: its tasks are cancelled inside the handler
+                await s.start_endpoint(other)
+                s.slow_stops += 1 if handed else 0
+                s.trace.append(f"send_slow_stop{st[1]}:{ident}:handler-cancelled={handed}")
                 await recover_link(s)
     elif k == "deliver":
         for _ in range(st[2]):
@@ -419,6 +440,8 @@ def end_oracle(acc, s, how, cid, restart_info):
            "counters": {x + "_" + y: getattr(w.ep[x]._session, "next_num_" + y) for x in "IA" for y in ("in", "out")},
            "swallowed_I": sorted(set(w.ep["I"].vf_log.exceptions))[-4:], "swallowed_A": sorted(set(w.ep["A"].vf_log.exceptions))[-4:],
            "logon_errors": s.logon_errors}
+    acc.add("receivers_stopped_while_their_handler_was_suspended", s.slow_stops)
+    acc.add("original_transmissions_with_explicit_possdup_n", s.explicit_n)
     # (3) no reuse of an outbound number for a different message
     acc.oracle("no-number-reuse")
     for side in "IA":
@@ -639,7 +662,7 @@ def run_shard(spec, acc):
             # kills
             k = 0
             for idx, bl in enumerate(probe["boundaries"]):
-                if steps[idx][0] in ("reset_seq_num", "seqreset"):
+                if steps[idx][0] in ("reset_seq_num", "seqreset", "send_slow_stop"):
                     continue          # renumbering by agreement between the two applications is not atomic across a kill by construction
                 for (bi, label, side) in bl:
                     k += 1
